@@ -105,7 +105,10 @@ Definition msgs_ok (fchain : list (N * Z)) (aos : list ao) (out : list (N * list
 
 (* a ready token slot has f+1 identical reports; when f+1 oracles report token data for a message at all, a slot
    index exists in the result only if f+1 oracles report a slot at that index - an unsupported extra slot must not
-   turn a supported message's token data not-ready (this clause fails inside the recorded class F13e) *)
+   turn a supported message's token data not-ready (this clause fails inside the recorded class F13e).
+   Third conjunct (added with Proofs/JudgeSoundC07P.v; the property was weaker than C07_token_slot_complete before: a
+   result slot that is not ready although exactly one value has f+1 reporters passed): when exactly one value of a
+   slot has f+1 reporters, the result slot carries that value. *)
 Fixpoint idx_forallb {A} (p : nat -> A -> bool) (i : nat) (l : list A) : bool :=
   match l with [] => true | x :: l' => p i x && idx_forallb p (S i) l' end.
 Definition tokens_ok (fchain : list (N * Z)) (aos : list ao) (out : list (N * list (N * list tok))) : bool :=
@@ -115,7 +118,12 @@ Definition tokens_ok (fchain : list (N * Z)) (aos : list ao) (out : list (N * li
                          forallb (fun ss => idx_forallb (fun i t =>
                                     (if t_ready t then N.leb thr (support tok_eqb (tok_at (fst cl) (fst ss) i) t aos) else true) &&
                                     (N.leb thr (support (fun _ _ => true) (has_slot (fst cl) (fst ss) i) tt aos) ||
-                                     negb (N.leb thr (support (fun _ _ => true) (has_slot (fst cl) (fst ss) O) tt aos)))) O (snd ss))
+                                     negb (N.leb thr (support (fun _ _ => true) (has_slot (fst cl) (fst ss) O) tt aos))) &&
+                                    match filter (fun t' => N.leb thr (support tok_eqb (tok_at (fst cl) (fst ss) i) t' aos))
+                                                 (dedup tok_eqb (all_items (tok_at (fst cl) (fst ss) i) aos)) with
+                                    | [t'] => tok_eqb t t'
+                                    | _ => true
+                                    end) O (snd ss))
                                  (snd cl)
                      end) out.
 
